@@ -253,6 +253,11 @@ impl Space for TimeRound {
                 let got = call(|| dt.to_ixdtf_string(to_string_opts(p, mode), DisplayCalendar::Auto));
                 let (rd, rt) = (day + (r / NS_PER_DAY) as i64, r % NS_PER_DAY);
                 out.lockstep("PlainDateTime::to_ixdtf_string", &Ok((rd, rt, want_digits)), &got, |m, s| parse_dt_text(s) == Some(*m), attrs);
+                // the same value as an instant printed in a zone (UTC as a fixed offset: reading = instant)
+                let inst = temporal_rs::Instant::try_new(day as i128 * NS_PER_DAY + v).expect("instant");
+                let utc = temporal_rs::TimeZone::try_from_str("+00:00").expect("zone");
+                let got = call(|| inst.to_ixdtf_string_with_provider(Some(&utc), to_string_opts(p, mode), &crate::providers::ErrProvider));
+                out.lockstep("Instant::to_ixdtf_string(in a zone)", &Ok((rd, rt, want_digits)), &got, |m, s| s.strip_suffix("+00:00").and_then(parse_dt_text) == Some(*m), attrs);
             }
         }
         if out.want_sample() && 2 * rem == inc.ns {
